@@ -29,6 +29,11 @@ network" *inside* the read lock, and reads the network nowhere else: a thread / 
 and filed its frames sees them, instead of reading again and waiting for bytes that have already arrived (Tie A, regenerated). -/
 theorem reader_rechecks_under_lock : Gen.h2EventsRecheckedUnderReadLock = true := by decide
 
+/-- **C08.writer_takes_and_writes_under_lock** (also C03, C12) - h2's outgoing buffer is emptied and its content written inside one
+hold of the write lock, and nowhere else: two threads / tasks cannot put their frames on the wire in another order than the one in
+which h2 produced them (the peer's HPACK decoder and its stream state machine depend on that order).  Tie A, regenerated. -/
+theorem writer_takes_and_writes_under_lock : Gen.h2BufferWrittenUnderWriteLock = true := by decide
+
 example : Gen.establishChecks.length = 3 := by decide
 
 /-- **C08.limit_under_threads** — the connection limit holds after a pass even if every status bit a pass reads
